@@ -380,9 +380,12 @@ def _assigned(stmts):
 
 
 class _Exec(object):
-    def __init__(self, f, inline=None, max_paths=MAX_PATHS, split_calls=True, positional=False):
+    def __init__(self, f, inline=None, max_paths=MAX_PATHS, split_calls=True, positional=False, resolver=None, depth=0, init_env=None):
         self.f = f
+        self.init_env = init_env
         self.positional = positional
+        self.resolver = resolver
+        self.depth = depth
         self.inline = inline or {}
         self.max_paths = max_paths
         self.havoc_n = 0
@@ -403,7 +406,7 @@ class _Exec(object):
         return evs
 
     def run(self):
-        env = {}
+        env = dict(self.init_env or {})
         if self.positional:
             args = self.f.args.args
             skip = 1 if args and args[0].arg in ('self', 'cls') else 0
@@ -453,9 +456,55 @@ class _Exec(object):
         return out
 
     def stmt(self, s, st):
+        if isinstance(s, (ast.Expr, ast.Assign, ast.AugAssign, ast.AnnAssign, ast.Return, ast.Raise)):
+            # every simple statement leaves a marker carrying the number of conditions established before it
+            st = Path(st.conds, st.events + (('stmt', len(st.conds), getattr(s, '_orig', s)),), st.env, None)
+        return self._stmt(s, st)
+
+    def checker_facts(self, call, st):
+        """`self.helper(args)` / `helper(args)` used as a statement where the helper only checks (raises or returns
+        nothing, no stores, no loops): the conditions under which it returns hold afterwards.  -> list of condition
+        tuples (one per returning path of the helper) or None when the call is not such a helper."""
+        if self.resolver is None:
+            return None
+        g = self.resolver(call)
+        if g is None or g is self.f:
+            return None
+        if self.depth >= 3:
+            return None
+        params = [a.arg for a in g.args.args]
+        if params and params[0] in ('self', 'cls') and isinstance(call.func, ast.Attribute):
+            params = params[1:]
+        env = {}
+        for pn, a in zip(params, call.args):
+            env[pn] = self.sx(a, st)
+        for k in call.keywords:
+            if k.arg:
+                env[k.arg] = self.sx(k.value, st)
+        if len(env) < len(params):
+            return None
+        try:
+            ps = _Exec(g, max_paths=64, resolver=self.resolver, depth=self.depth + 1, init_env=env).run()
+        except TooManyPaths:
+            return None
+        if any(ev[0] in ('store', 'loop') for p in ps for ev in p.events):
+            return None
+        if not any(p.outcome[0] == 'raise' for p in ps):
+            return None
+        rets = [p for p in ps if p.outcome[0] != 'raise']
+        if not rets or any(p.outcome[0] == 'return' and p.outcome[1] != 'None' for p in rets):
+            return None
+        return [p.conds for p in rets]
+
+    def _stmt(self, s, st):
         if isinstance(s, ast.Expr):
             if isinstance(s.value, ast.Constant):
                 return [st]
+            if isinstance(s.value, ast.Call):
+                facts = self.checker_facts(s.value, st)
+                if facts is not None:
+                    evs = self.record_calls(s.value, st)
+                    return [Path(st.conds + f, st.events + tuple(evs), st.env, None) for f in facts]
             evs = self.record_calls(s.value, st)
             env = st.env
             # x.append(y) / x.extend(y) etc. change x: later reads of an alias would be stale -> keep text, note event
@@ -471,7 +520,8 @@ class _Exec(object):
                 for st2, pol in self.branch(s.value.test, st):
                     s2 = ast.Assign(targets=targets, value=None) if isinstance(s, ast.Assign) else ast.AnnAssign(target=s.target, annotation=s.annotation, value=None, simple=1)
                     s2.value = s.value.body if pol else s.value.orelse
-                    out.extend(self.stmt(s2, st2))
+                    s2._orig = s
+                    out.extend(self._stmt(s2, st2))
                 return out
             evs = self.record_calls(s.value, st)
             v = self.sx(s.value, st)
@@ -642,31 +692,60 @@ def with_loop_bodies(ps):
     seen = set()
 
     def add(p, prefix):
-        q = Path(prefix + p.conds, p.events, p.env, p.outcome)
-        out.append(q)
+        out.append(p)
         for ev in p.events:
             if ev[0] in ('loop', 'in-loop:loop') and len(ev) > 3 and id(ev[3]) not in seen:
                 seen.add(id(ev[3]))
                 for bp in ev[3]:
-                    add(bp, prefix + p.conds)
+                    add(bp, ())       # body paths start from the conditions of the enclosing path at loop entry
     for p in ps:
         add(p, ())
     return out
 
 
 _CACHE = {}
+_DEPTH = [0]
 
 
-def paths(f, max_paths=MAX_PATHS, positional=False):
+def paths(f, max_paths=MAX_PATHS, positional=False, resolver=None):
     """Path summaries of function f (cached per function node).  positional=True names the parameters
     ARG0, ARG1, ... (after self) so that summaries do not depend on parameter names."""
-    key = (id(f), positional)
+    key = (id(f), positional, id(resolver))
     if key not in _CACHE:
         try:
-            _CACHE[key] = (f, _Exec(f, max_paths=max_paths, positional=positional).run())
+            _DEPTH[0] += 1
+            try:
+                _CACHE[key] = (f, _Exec(f, max_paths=max_paths, positional=positional, resolver=resolver, depth=_DEPTH[0]).run())
+            finally:
+                _DEPTH[0] -= 1
         except TooManyPaths:
             _CACHE[key] = (f, None)
     return _CACHE[key][1]
+
+
+def class_resolver(cls):
+    """resolver for paths(): self.m(...) -> the method m of cls (MRO), f(...) -> module-level function of cls's module"""
+    def resolve(call):
+        fn = call.func
+        if isinstance(fn, ast.Attribute) and isinstance(fn.value, ast.Name) and fn.value.id == 'self':
+            r = cls.find_method(fn.attr)
+            return r[1] if r else None
+        if isinstance(fn, ast.Name):
+            r = cls.mod.resolve_name(fn.id)
+            return r if isinstance(r, ast.FunctionDef) else None
+        return None
+    return resolve
+
+
+def reaching(ps, node):
+    """(path, conditions established before) for every path that executes the simple statement `node`."""
+    out = []
+    for p in with_loop_bodies(ps):
+        for ev in p.events:
+            if ev[0] in ('stmt', 'in-loop:stmt') and ev[2] is node:
+                out.append((p, p.conds[:ev[1]] if ev[0] == 'stmt' else p.conds))
+                break
+    return out
 
 
 def returns(f):
